@@ -1,7 +1,7 @@
 (* Property C09 -- dot-segment normalisation.  Statements only. *)
 From Coq Require Import List NArith Bool Arith.
 Import ListNotations.
-Require Import V.Regex V.Parse V.PathSpec V.Splice V.Setters V.Iter V.PathQ V.C09Proofs.
+Require Import V.Regex V.Parse V.PathSpec V.Splice V.Setters V.Iter V.PathQ V.ParseProofs V.C09Proofs V.C12Proofs.
 Local Open Scope nat_scope.
 
 (* the normalized-segment iterator of the model (a stack of ranges, as in the Rust code) computes
@@ -12,6 +12,12 @@ Theorem C09_normalized_segments : forall p,
   map (slice p) (pq_normalized_segments p) = norm (is_abs p) (map (slice p) (pq_segments p)).
 Proof. exact normalized_segments_is_norm. Qed.
 Print Assumptions C09_normalized_segments.
+
+(* with C12: for every path free of '?' and '#' the normalized-segment iterator yields `norm` of the '/'-split *)
+Theorem C09_normalized_segments_of_text : forall p, none_of [QM; HASH] p ->
+  map (slice p) (pq_normalized_segments p) = norm (is_abs p) (segs p).
+Proof. intros p H. rewrite normalized_segments_is_norm, (segments_are_the_split p H). reflexivity. Qed.
+Print Assumptions C09_normalized_segments_of_text.
 
 (* the walk always ends in a normal form: leading ".." (none when absolute) followed by dot-free segments *)
 Theorem C09_normal_form : forall ab l, normal ab (norm ab l).
